@@ -11,7 +11,7 @@ from vlib import common as C
 ID = 'C10'
 READY = True
 LEVEL_TEXT = ('Partial. Proved (Coq/Coquelicot/Interval) about what optimism adds to JAX: the custom_root tangent solve y/g(1) inverts every '
-              'non-degenerate linear map and with the scalar implicit-function theorem gives the derivative of the root (restated from C17); the '
+              'non-degenerate linear map and with the scalar implicit-function theorem gives the derivative of the root; the '
               'total-derivative / envelope theorem (stress = partial derivative at fixed internal variable when the internal variable is stationary '
               'or frozen, i.e. on either side of the yield switch); the safe_sqrt JVP rule (v*0.5/sqrt x = v*sqrt\'(x) for x>0, 0 for x<=0) on the '
               'regenerated kernel; the sqrt/exp/log/pow relative-difference kernels equal the divided differences (f l1 - f l2)/(l1 - l2); the '
@@ -30,7 +30,7 @@ TRUSTED = ['Coq 8.16.1 kernel + vm_compute (no native_compute)',
            'tied by binary64 correspondence given the implementation\'s own eigen-pairs',
            'model-side binary64 exp/ln approximations (|rel err| < 1e-14) used only to execute models',
            'JAX autodiff of all other primitives: not proved, compared with finite differences of the energy density',
-           'lemmas tangent_solve / ift_with_tangent_solve of proofs/L_C17.v and the three *_relative_difference_exact lemmas of proofs/L_C12.v (restated)']
+           'the three *_relative_difference_exact lemmas of proofs/L_C12.v (restated)']
 ASSUMPTIONS = ['theorems over exact reals; binary64 behaviour only through the correspondence',
                'envelope / implicit-function theorems assume Frechet differentiability of the potential / residual at the point (Coquelicot filterdiff) '
                'and differentiability of the internal variable; at the yield switch itself nothing is claimed',
